@@ -179,7 +179,11 @@ Definition with_node_pod_locked (s : lstore) (name : string) (body : M) : M :=
 Definition with_node_op_locked (s : lstore) (name : string) (body : M) : M :=
   with_nodes_op_locked s (one_node_filter name) (fun ns => if has_node name ns then body else ret true).
 
-(* lock.go:withWorkloadsLocked; [gone] = ids removed earlier in this thread *)
+(* lock.go:withWorkloadsLocked; [gone] = ids removed earlier in this thread.
+   Not modelled: when an attempt fails after several workload locks were taken,
+   doUnlockAll releases them in Go map order (the model releases LIFO); no
+   operation passes more than one id, and the harness does not inject lock
+   failures into multi-id calls of the helper. *)
 Definition with_workloads_locked (s : lstore) (gone : list string) (ignore_lock : bool)
     (ids : list string) (body : M) : M :=
   let ids' := sort_uniq ids in
